@@ -88,8 +88,12 @@ class _TypeLookup(DictLike):
         self[key] = Deleted
         return current
 
-    def setdefault(self, key, default):
-        return self._base_frame.setdefault(key, default)
+    def setdefault(self, key, default=None):
+        try:
+            return self[key]
+        except KeyError:
+            self[key] = default
+            return default
 
     def update(self, *iterable, **values):
         simplified = dict(*iterable, **values)
@@ -179,11 +183,12 @@ class _InstanceLookup(DictLike):
         self.local[key] = Deleted
         return current
 
-    def setdefault(self, key, default):
+    def setdefault(self, key, default=None):
         try:
             return self[key]
         except KeyError:
-            return self.local.setdefault(key, default)
+            self.local[key] = default
+            return default
 
     def update(self, *iterable, **values):
         simplified = dict(*iterable, **values)
